@@ -1084,9 +1084,12 @@ func (val Value) HasIndex(key Value) Value {
 //
 // This method will panic if the receiver is not a set, or if it is a null set.
 func (val Value) HasElement(elem Value) Value {
-	if val.IsMarked() || elem.IsMarked() {
+	if val.IsMarked() || elem.ContainsMarked() {
+		// A set can't contain marked values (its members' marks are always
+		// aggregated on the set itself) but the given value might have marks
+		// nested inside it, which we must remove before we can hash it.
 		val, valMarks := val.Unmark()
-		elem, elemMarks := elem.Unmark()
+		elem, elemMarks := elem.UnmarkDeep()
 		return val.HasElement(elem).WithMarks(valMarks, elemMarks)
 	}
 
